@@ -8,7 +8,7 @@ Verdict(t) ==
   IF e.res # "ok" THEN (IF o.res = "err:" \o e.res THEN "ok" ELSE "payload-refusal@1")
   ELSE IF o.res # "ok" THEN "payload-accepted@1"
   ELSE IF o.shape # e.shape THEN "payload-shape@1"
-  ELSE IF <<o.num, o.den>> # e.fac THEN "payload-value@1"
+  ELSE IF <<o.num, o.den>> # e.val THEN "payload-value@1"
   ELSE IF o.units # e.units THEN "payload-units@1"
   ELSE IF o.masked # e.masked THEN "payload-mask@1"
   ELSE IF o.alias # "err:FinamDataError" THEN "alias-refused@1"
